@@ -1,21 +1,17 @@
-\* C12 -- NEGATIVE CONTROL: split(' ') instead of split(); RecordsRoundTrip must be violated
+\* C12 -- NEGATIVE CONTROL: the width table of the first dump is remembered until a field is assigned or deleted (not when a list changes in place); WidthRule must be violated
 CONSTANTS
   Tables <- DocTables
-  Modes <- ModesNegSplit
+  Modes <- ModesNegCache
   IterateAllFields = FALSE
-  SplitEverySpace = TRUE
-  CacheWidths = FALSE
+  SplitEverySpace = FALSE
+  CacheWidths = TRUE
   Emit = FALSE
   EmitOff = 0
 SPECIFICATION Spec
 INVARIANT TypeOK
 INVARIANT DumpTotal
-INVARIANT WidthTable
-INVARIANT DumpExplains
 INVARIANT RecordsRoundTrip
 INVARIANT SubFieldNames
 INVARIANT WidthRule
 INVARIANT RightAligned
-INVARIANT SingleBlanks
-PROPERTY LoadIsIdentity
 CHECK_DEADLOCK FALSE
